@@ -27,7 +27,9 @@ def check_case(case):
              ("abs(Path(shape) * M)", lambda: list(abs(svg.Path(base) * m))),
              ("Path(shape * M).reify()", lambda: list(svg.Path(base * m).reify())),
              ("Path(shape)*M then reify()", lambda: list((svg.Path(base) * m).reify())),
-             ("abs(shape * M) as Path", lambda: list(abs(svg.Path(abs(base * m)))))]
+             ("abs(shape * M) as Path", lambda: list(abs(svg.Path(abs(base * m))))),
+             ("Path(shape @ M)", lambda: list(abs(svg.Path(base @ m)))),
+             ("Path(shape) @ M", lambda: list(svg.Path(base) @ m))]
     for name, fn in forms:
         try:
             got = fn()
